@@ -4,6 +4,14 @@ import json, os, subprocess
 V = os.path.dirname(os.path.dirname(os.path.abspath(__file__)))
 
 CHECKS = {
+ "C04": dict(level="exploration", design="§3 C04",
+   text="Reference-model monitor over a finite space enumerated completely: every base phone and base+1-diacritic segment (8 819) x 26 features and 5 place nodes x +/- as matcher and as setter, all 26x26x2 feature alpha pairs, node alphas carried from a context segment over one donor per distinct place value, node-to-feature coercion, and random multi-feature matrices; the real interpreter's structural result (hook) is compared with a 30-line bit model written from the documented layout. 20 M applications in the quick tier.",
+   note="oracle = my bit model of the documented feature layout (independent of to_node_mask); observation through the structural hook; match is observed through `> [+stress]` on a one-segment word",
+   technique="reference-model runtime monitor, exhaustive over the finite segment x feature space"),
+ "C05": dict(level="exploration", design="§3 C05",
+   text="Table-model monitor, exhaustive: 36 suprasegmental states x 404 modifier combinations x {match, set} x 4 element kinds x 3 positions in the syllable (271 k applications), each executed on the real interpreter and compared structurally with a 40-line model of the manual's stress/length/tone tables; contradictory setters must return Err.",
+   note="oracle = my reading of doc.md's tables (length: nearest state the modifier allows; stress as tabulated); contradictory matchers may either not match or error",
+   technique="reference-table runtime monitor, exhaustive"),
  "C18": dict(level="exploration", design="§3 C18",
    text="Exhaustive runtime evaluation of the get/set/match equations on every one of the 65 537 place values, every sub-node value and every feature of the exported Segment/Place API (120 M setter calls per run); thorough adds a slice under Miri for the unwrap_unchecked getters. The space is finite and is enumerated completely, so the only gap is code not reachable through these methods.",
    note="oracle = the equations themselves evaluated on the real methods; well-formedness predicate of a place value is mine (sub-node present bit set iff payload may be non-zero)",
